@@ -229,8 +229,13 @@ func (c18) closeAt(sc core.Scenario, r *core.R) {
 	allOuts := append([]*Outcome(nil), outs...)
 	allGots := append([]*got(nil), gots...)
 	mu.Unlock()
+	blockedN := 0
 	for _, o := range allOuts {
+		if blockedN >= 2 && !o.Returned() {
+			continue // already established: do not spend a grace period per call
+		}
 		if !o.Wait(core.Grace) {
+			blockedN++
 			r.Violate("call-blocked-after-close", "%s: call %s is still blocked after the closer returned; events: %s", where, o.Tok, core.Log.Tail(40))
 		} else if o.Err == nil && o.Val != "" && o.Val != svc.Reply(o.Tok) && len(o.Val) < 100 {
 			r.Violate("foreign-result", "%s: call %s returned %q", where, o.Tok, o.Val)
